@@ -798,5 +798,13 @@ seed("c14-xtext-leading-plus-raw", "C14", "R-xtext-decodes-every-plus", "conn.go
 		return val, nil
 	}""", "a value starting with '+' is returned undecoded")
 
+seed("c13-shared-error-mutated", "C13", "R-smtperror-not-mutated", "conn.go",
+"""func (c *Conn) writeError(code int, enhCode EnhancedCode, err error) {
+	if smtpErr, ok := err.(*SMTPError); ok {""", """func (c *Conn) writeError(code int, enhCode EnhancedCode, err error) {
+	if smtpErr, ok := err.(*SMTPError); ok {
+		if smtpErr.EnhancedCode == EnhancedCodeNotSet {
+			smtpErr.EnhancedCode = enhCode
+		}""", "the backend's error object is modified in place")
+
 json.dump(S, open(os.path.join(os.path.dirname(os.path.abspath(__file__)), "bank.json"), "w"), indent=1)
 print(len(S), "seeds")
